@@ -77,7 +77,10 @@ def run(c):
         t = "%s/trace-%d.ndjson" % (c.scratch, i)
         c.run_driver(drv, ["-in", f, "-out", t])
         traces.append(t)
-    res = _gw.validate_all(c, "GatewayRoutingTrace", "GatewayRoutingTrace.cfg", traces)
+    # both trace families are validated side by side
+    res, _ = _gw.side_by_side(
+        lambda: _gw.validate_all(c, "GatewayRoutingTrace", "GatewayRoutingTrace.cfg", traces),
+        lambda: _gw.validate_all(c, "GatewayRoutingConcTrace", "GatewayRoutingConcTrace.cfg", conc_traces))
     nd = sum(r.out.count('"VERIF-DRIFT"') for r in res)
     if nd:
         c.notes.append("drift lines: %d" % nd)
@@ -116,7 +119,6 @@ def concurrent(c, drv, gc):
         t = "%s/conc-trace-%d.ndjson" % (c.scratch, i)
         c.run_driver(drv, ["-in", f, "-out", t])
         traces.append(t)
-    _gw.validate_all(c, "GatewayRoutingConcTrace", "GatewayRoutingConcTrace.cfg", traces)
     c.notes.append("concurrent update sequences: %d of %d enumerated" % (len(seqs), total))
     return traces
 
